@@ -253,6 +253,15 @@ def load_known():
         return json.load(f).get("findings", [])
 
 
+def nested_loan(e):
+    """does the event's flash-loan script contain a loan inside a loan's call-back?"""
+    def has_loan(script):
+        return any(a.get("a") == "loan" for a in script)
+    def walk(script):
+        return any(a.get("a") == "loan" and (has_loan(a.get("sub", [])) or walk(a.get("sub", []))) for a in script)
+    return walk(e.get("args", {}).get("script", []))
+
+
 def match_known(known, pid, bad, event):
     """A BAD record is explained by a known finding iff every failing check of this property is listed
     by one finding whose event type and witness condition match."""
@@ -267,7 +276,7 @@ def match_known(known, pid, bad, event):
         cond = k.get("when")
         if cond:
             try:
-                if not eval(cond, {"__builtins__": {}}, {"e": event, "int": int, "len": len, "any": any, "all": all}):
+                if not eval(cond, {"__builtins__": {}}, {"e": event, "int": int, "len": len, "any": any, "all": all, "nested_loan": nested_loan}):
                     continue
             except Exception:
                 continue
